@@ -40,6 +40,10 @@
 //!          (falling frequency, ties by dictionary line); weights = freq.powf(1/2).
 //! output = (run1 run2): words of the corrupted text | (-777), for two independent runs (fresh closure,
 //!          dictionary loaded again) on the same text and seed
+//!
+//! Third stream (first field 3): the same with arbitrary probabilities, exact line only:
+//! input  = (3 (1 1 1 1) 0 0 itab rtab seed () trigrams words info (pw pc)), pw = the corruption probability
+//!          (0 < pw <= 1), pc = char_edit_prob, both f64 values (0 m e); output = (run1 run2)
 use rand::SeedableRng;
 use rand_chacha::ChaCha8Rng;
 use std::borrow::Cow;
@@ -588,6 +592,18 @@ struct E2e {
     words: Vec<String>,
     seed: u64,
     charmode: bool,
+    /// third stream: Some((corruption probability, char_edit_prob)); None = second stream
+    /// (probability 1.0, char_edit_prob 0.0 / 1.0 by `charmode`)
+    probs: Option<(f64, f64)>,
+}
+
+impl E2e {
+    fn pw(&self) -> f64 {
+        self.probs.map(|p| p.0).unwrap_or(1.0)
+    }
+    fn pc(&self) -> f64 {
+        self.probs.map(|p| p.1).unwrap_or(if self.charmode { 1.0 } else { 0.0 })
+    }
 }
 
 /// the tables corrupt_spelling builds from the 3-gram dictionary (src/data/preprocessing.rs):
@@ -654,7 +670,7 @@ fn e2e_to_val(e: &E2e, cache: &mut Cache) -> Val {
         }
         _ => unreachable!(),
     };
-    l[0] = Val::I(2);
+    l[0] = Val::I(if e.probs.is_some() { 3 } else { 2 });
     l.push(Val::L(
         e.trigrams
             .iter()
@@ -663,7 +679,10 @@ fn e2e_to_val(e: &E2e, cache: &mut Cache) -> Val {
     ));
     l.push(Val::L(e.words.iter().map(|w| Val::str(w)).collect()));
     l.push(e2e_info(e, cache));
-    l.push(Val::b(e.charmode));
+    l.push(match e.probs {
+        Some((pw, pc)) => Val::L(vec![f64_val(pw), f64_val(pc)]),
+        None => Val::b(e.charmode),
+    });
     Val::L(l)
 }
 
@@ -674,7 +693,8 @@ fn ok_token(s: &str, ctx: bool) -> bool {
 
 fn val_e2e(v: &Val) -> Option<E2e> {
     let l = v.as_l()?;
-    if l.len() != 12 || l[0].as_i()? != 2 {
+    let stream = l.first()?.as_i()?;
+    if l.len() != 12 || (stream != 2 && stream != 3) {
         return None;
     }
     let seed = u64::try_from(l[6].as_i()?).ok()?;
@@ -703,7 +723,16 @@ fn val_e2e(v: &Val) -> Option<E2e> {
     if words.len() > 4 {
         return None;
     }
-    Some(E2e { trigrams, words, seed, charmode: l[11].as_bool()? })
+    if stream == 3 {
+        let pw = val_f64(l[11].nth(0)?)?;
+        let pc = val_f64(l[11].nth(1)?)?;
+        // corrupt_spelling clamps the probability to [0, 1] and asserts it is positive
+        if !(pw > 0.0 && pw <= 1.0) || l[11].as_l()?.len() != 2 {
+            return None;
+        }
+        return Some(E2e { trigrams, words, seed, charmode: false, probs: Some((pw, pc)) });
+    }
+    Some(E2e { trigrams, words, seed, charmode: l[11].as_bool()?, probs: None })
 }
 
 fn run_e2e(e: &E2e) -> (Val, Vec<String>) {
@@ -713,7 +742,7 @@ fn run_e2e(e: &E2e) -> (Val, Vec<String>) {
     let body: String = e.trigrams.iter().map(|(p, c, n, f)| format!("{p} {c} {n}\t{f}\n")).collect();
     let _ = std::fs::write(&path, body);
     let text = e.words.join(" ");
-    let mut tags = vec!["e2e".to_string()];
+    let mut tags = vec![if e.probs.is_some() { "e2e3".to_string() } else { "e2e".to_string() }];
     if e.trigrams.iter().enumerate().any(|(i, a)| e.trigrams[..i].iter().any(|b| a.0 == b.0 && a.2 == b.2 && a.3 == b.3)) {
         // two 3-grams of one (prev, next) context with the same frequency: their order inside the
         // table entry is decided by the tie-break of the sort alone
@@ -723,13 +752,13 @@ fn run_e2e(e: &E2e) -> (Val, Vec<String>) {
     // same text, same seed
     let mut outs = vec![];
     for run in 0..2 {
-        let (seed, charmode, p2, text) = (e.seed, e.charmode, path.clone(), text.clone());
+        let (seed, pw, pc, p2, text) = (e.seed, e.pw(), e.pc(), path.clone(), text.clone());
         let res = catch_unwind(AssertUnwindSafe(move || {
             let f = preprocessing(PreprocessingFnConfig::SpellingCorruption(
                 Part::Input,
-                1.0,
+                pw,
                 false,
-                SpellingCorruptionMode::Artificial(if charmode { 1.0 } else { 0.0 }, 2.0, Some(p2.into())),
+                SpellingCorruptionMode::Artificial(pc, 2.0, Some(p2.into())),
             ));
             let info = TextDataInfo { seed, ..Default::default() };
             f(TrainData::new(text, None), info).ok().map(|(d, _)| d.verif_input().to_string())
@@ -739,7 +768,11 @@ fn run_e2e(e: &E2e) -> (Val, Vec<String>) {
                 let ws: Vec<&str> = if t.is_empty() { vec![] } else { t.split(' ').collect() };
                 if run == 0 && ws.iter().zip(e.words.iter()).any(|(a, b)| a != b) {
                     tags.push("e2e-changed".into());
-                    if e.charmode && e.words.iter().any(|w| w.len() > 1) {
+                    if e.probs.is_some() && ws.iter().zip(e.words.iter()).any(|(a, b)| a == b) && e.words.len() > 1 {
+                        // some words corrupted, some kept: both branches of the per-word draw
+                        tags.push("e2e3-mixed".into());
+                    }
+                    if e.probs.is_none() && e.charmode && e.words.iter().any(|w| w.len() > 1) {
                         tags.push("nt".into());
                         tags.push("e2e-chain".into());
                     }
@@ -804,7 +837,24 @@ fn gen_e2e(rng: &mut Rng) -> E2e {
         let n = if rng.chance(1, 4) { "<eow>".to_string() } else { rng.pick(E2E_ALPHA).to_string() };
         push(p, rng.pick(E2E_ALPHA).to_string(), n, rng.range(1, 5));
     }
-    E2e { trigrams, words, seed: rng.below(1 << 30) as u64, charmode: rng.chance(2, 3) }
+    // a third of the corrupt_spelling cases: arbitrary probabilities (third stream, exact line only)
+    let probs = if rng.chance(1, 3) {
+        let p = |rng: &mut Rng| -> f64 {
+            match rng.below(6) {
+                0 => 1.0,
+                1 => 0.5,
+                2 => 0.25,
+                3 => 0.9,
+                _ => (1 + rng.below(1 << 20)) as f64 / (1u64 << 20) as f64 * if rng.chance(1, 2) { 1.0 } else { 0.999_999_999_9 },
+            }
+        };
+        let pw = p(rng);
+        let pc = if rng.chance(1, 6) { 0.0 } else { p(rng) };
+        Some((pw, pc))
+    } else {
+        None
+    };
+    E2e { trigrams, words, seed: rng.below(1 << 30) as u64, charmode: rng.chance(2, 3), probs }
 }
 
 // ------------------------------------------------------------------ generators
@@ -1086,7 +1136,7 @@ impl Prop for C15 {
     }
 
     fn run(&mut self, input: &Val) -> Option<(Val, Vec<String>)> {
-        if input.nth(0).and_then(|x| x.as_i()) == Some(2) {
+        if matches!(input.nth(0).and_then(|x| x.as_i()), Some(2) | Some(3)) {
             let e = val_e2e(input)?;
             if e2e_to_val(&e, &mut self.cache) != *input {
                 return None;
@@ -1103,7 +1153,7 @@ impl Prop for C15 {
     }
 
     fn canon(&mut self, input: &Val) -> Option<Val> {
-        if input.nth(0).and_then(|x| x.as_i()) == Some(2) {
+        if matches!(input.nth(0).and_then(|x| x.as_i()), Some(2) | Some(3)) {
             let e = val_e2e(input)?;
             return Some(e2e_to_val(&e, &mut self.cache));
         }
